@@ -355,13 +355,48 @@ def try_call(fn):
     return None, e
 
 
+class SearchTimeout(Exception):
+  """The search did not return within SEARCH_TIME_LIMIT_S (typical searches
+  of the enumerated sizes take milliseconds to a few seconds)."""
+
+
+_TIMED_OUT = []
+SEARCH_TIME_LIMIT_S = int(os.environ.get('MMVERIF_SEARCH_LIMIT_S', '60'))
+
+
 def run_search(case, which, mm=None):
-  """Returns (designs or None, exception or None, stage)."""
+  """Returns (designs or None, exception or None, stage).  A search that
+  does not return within the time limit is interrupted and reported as
+  SearchTimeout, so that a non-terminating search cannot hang a check."""
+  import signal
   if mm is None:
     mm, err = try_call(case.new_mm)
     if err is not None:
       return None, err, 'construct'
-  designs, err = try_call(getattr(mm, which + '_search'))
+  fired = []
+  # once one search of this worker process has been interrupted, further
+  # witnesses are collected with a shorter limit
+  limit = SEARCH_TIME_LIMIT_S if not _TIMED_OUT else max(
+      5, SEARCH_TIME_LIMIT_S // 6)
+
+  def on_alarm(signum, frame):
+    fired.append(1)
+    _TIMED_OUT.append(1)
+    raise SearchTimeout('no result after %d s' % limit)
+  try:
+    old = signal.signal(signal.SIGALRM, on_alarm)
+  except ValueError:          # not the main thread: no limit available
+    old = None
+  if old is not None:
+    signal.alarm(limit)
+  try:
+    designs, err = try_call(getattr(mm, which + '_search'))
+  finally:
+    if old is not None:
+      signal.alarm(0)
+      signal.signal(signal.SIGALRM, old)
+  if fired and not isinstance(err, SearchTimeout):
+    designs, err = None, SearchTimeout('interrupted after %d s' % limit)
   return designs, err, 'search'
 
 
